@@ -199,11 +199,15 @@ def wrap(stmt_text: str, where: int) -> str:
 class Case:
     """one metamorphic pair: expanding program, manual program (or why there is none)"""
 
-    def __init__(self, kind, expanding, manual, header=None, note="", tag=""):
+    def __init__(self, kind, expanding, manual, header=None, note="", tag="", envs=None, macros=None, before=None):
         self.kind, self.expanding, self.manual, self.header, self.note, self.tag = kind, expanding, manual, header, note, tag
+        self.envs = envs            # --env names of the compilation (None = none)
+        self.macros = macros        # the header's number macros as the harness knows them ([(name, digits)]); None = take the recorded ones
+        self.before = before or []  # compilations (dicts src/header/envs) done IN THE SAME PROCESS right before this case
 
     def to_json(self):
-        return dict(kind=self.kind, expanding=self.expanding, manual=self.manual, header=self.header, note=self.note, tag=self.tag)
+        return dict(kind=self.kind, expanding=self.expanding, manual=self.manual, header=self.header, note=self.note, tag=self.tag,
+                    envs=self.envs, macros=self.macros, before=self.before)
 
 
 def inner(body: str) -> str:
@@ -238,6 +242,30 @@ def gen_repeat(rng, tier):
             man, note = manual_of(lambda: "".join(inner(spec_expand(body, [(p, str(i))], [])) for i in py_range(a, b, s)))
             cases.append(Case("repeat", wrap(call, where), None if man is None else wrap(man, where), note=note,
                               tag=f"repeat({a},{b},{s})"))
+    # beyond the exhaustive cube: long ranges, large steps, bounds far from zero, positional / keyword / defaulted arguments
+    for k in range(40 if tier == "quick" else 400):
+        a = rng.choice([rng.randint(-40, 40), rng.randint(-1000, 1000), 0])
+        s_ = rng.choice([1, -1, 2, -2, 3, -3, 7, -7, 13, -13, 100, -100, rng.randint(1, 20), -rng.randint(1, 20)])
+        n = rng.choice([0, 1, 2, 3, rng.randint(0, 12), rng.randint(0, 40)])
+        b = a + s_ * n + (rng.choice([0, 0, 1, -1, s_ // 2]) if n else rng.choice([0, -s_, -3 * s_]))
+        p = rng.choice(["i", "index", "n", "_"])
+        pool = stmt_pool(p)
+        chosen = [rng.choice(pool) for _ in range(rng.randint(1, 2))]
+        body = "{ " + " ".join(chosen) + " }"
+        style = k % 4
+        if style == 0:
+            args = f"start={a}, stop={b}, step={s_}"
+        elif style == 1:
+            args = f"stop={b}, step={s_}, start={a}"
+        elif style == 2:
+            args = f"{a}, {b}, {s_}"
+        else:
+            args = f"{a}, stop={b}, step={s_}"
+        call = f"Hardcode.repeat(({p})=>{body}, {args});"
+        if len(py_range(a, b, s_)) > 60:
+            continue
+        man, note = manual_of(lambda: "".join(inner(spec_expand(body, [(p, str(i))], [])) for i in py_range(a, b, s_)))
+        cases.append(Case("repeat", wrap(call, k % 3), None if man is None else wrap(man, k % 3), note=note, tag=f"repeat-wide({a},{b},{s_})"))
     return cases
 
 
@@ -251,20 +279,60 @@ EXPR_ADVERSARIAL = [
 ]
 
 
-def gen_expr(rng, depth=0) -> str:
+class Hdr:
+    """a header file given by its directives; number macros known by construction (the specification of `#define K <number>`,
+    `#enum C [start] A B ..` = C.A, C.B numbered from start (default 0), `#env E` = 1 if E is passed with --env else 0)"""
+
+    def __init__(self, *directives, envs=()):
+        self.directives, self.envs = directives, list(envs)
+        lines, self.macros = [], []
+        for d in directives:
+            if d[0] == "define":
+                lines.append(f"#define {d[1]} {d[2]}")
+                self.macros.append((d[1], str(d[2])))
+            elif d[0] == "enum":
+                _, cls, start, members = d
+                lines.append(f"#enum {cls} " + ("" if start is None else f"{start} ") + " ".join(members))
+                for k, m in enumerate(members):
+                    self.macros.append((f"{cls}.{m}", str((start or 0) + k)))
+            else:
+                lines.append(f"#env {d[1]}")
+                self.macros.append((d[1], "1" if d[1] in self.envs else "0"))
+        self.text = "".join(ln + "\n" for ln in lines)
+        self.names = [k for k, _ in self.macros]
+
+
+HDRS = [
+    Hdr(("define", "N", 5), ("define", "NN", 7), ("define", "M", 12)),
+    Hdr(("define", "ROWS", 3), ("define", "COLS", 9)),
+    Hdr(("define", "ROWS", 2), ("define", "COLS", 4)),
+    Hdr(("define", "COLS", 4), ("define", "ROW", 1), ("define", "ROWS", 6)),
+    Hdr(("define", "N", 2), ("define", "M", 0), ("define", "NNN", 100)),
+    Hdr(("enum", "Color", None, ["RED", "GREEN", "BLUE"])),
+    Hdr(("enum", "Color", 5, ["RED", "GREEN", "BLUE"])),
+    Hdr(("enum", "Color", 1, ["BLUE", "RED", "REDDISH"]), ("define", "N", 3)),
+    Hdr(("env", "DEBUG"), ("define", "K", 3)),
+    Hdr(("env", "DEBUG"), ("define", "K", 3), envs=["DEBUG"]),
+    Hdr(("define", "N", 9), ("env", "FAST"), ("enum", "Tier", 10, ["LOW", "HIGH"]), envs=["FAST", "OTHER"]),
+]
+
+
+def gen_expr(rng, depth=0, leaves=()) -> str:
     r = rng.random()
+    if leaves and (depth > 3 or r < .3) and rng.random() < .45:
+        return rng.choice(leaves)
     if depth > 3 or r < .3:
         n = rng.choice([0, 1, 2, 3, 7, 10, 12, rng.randint(0, 99), rng.randint(0, 10 ** 6)])
         return str(n)
     if r < .4:
-        return "-" + gen_expr(rng, depth + 1)
+        return "-" + gen_expr(rng, depth + 1, leaves)
     if r < .55:
-        return "(" + gen_expr(rng, depth + 1) + ")"
+        return "(" + gen_expr(rng, depth + 1, leaves) + ")"
     op = rng.choice(["+", "-", "*", "\\", "%", "**", "+", "-", "*", "/", "$i"])
     if op == "$i":
         return "$i"
     sp = rng.choice(["", " ", ""])
-    a, b = gen_expr(rng, depth + 1), gen_expr(rng, depth + 1)
+    a, b = gen_expr(rng, depth + 1, leaves), gen_expr(rng, depth + 1, leaves)
     if op == "**":
         b = str(rng.choice([0, 1, 2, 3, 5]))
     return f"{a}{sp}{op}{sp}{b}"
@@ -282,7 +350,30 @@ def gen_calc(rng, tier):
         use_hdr = any(c.isalpha() for c in e.replace("$i", ""))
         man, note = manual_of(lambda: inner(spec_expand(body, [("i", str(i))], macros if use_hdr else [])))
         cases.append(Case("calc", wrap(call, 0), None if man is None else wrap(man, 0), header=header if use_hdr else None,
-                          note=note, tag=f"calc[{e}]"))
+                          note=note, tag=f"calc[{e}]", macros=macros if use_hdr else []))
+    # number macros of every kind (#define / #enum / #env) as operands, at string and non-string sites, in repeat bodies and @lazy bodies;
+    # consecutive cases (same process) use different headers
+    sites = ['say "v=Hardcode.calc(%s) w=$i";', '$m0 = Hardcode.calc(%s);', 'if ($x == Hardcode.calc(%s)) { say "a $i"; say "b"; }',
+             'say "Hardcode.calc(%s) and Hardcode.calc($i+%s)";']
+    for k in range(150 if tier == "quick" else 1500):
+        h = HDRS[k % len(HDRS)] if k < 4 * len(HDRS) else rng.choice(HDRS)
+        other = rng.choice(HDRS)
+        leaves = list(h.names) + ["$i"] + ([rng.choice(other.names)] if rng.random() < .15 else [])   # sometimes a name of ANOTHER header
+        e = gen_expr(rng, leaves=leaves)
+        site = sites[k % len(sites)]
+        stmt = site % ((e,) * site.count("%s"))
+        i = (k % 5) - 2
+        if k % 3 == 2:
+            defn = "@lazy function lz(i) { " + stmt + " }\n"
+            call = f"lz({i});"
+            man, note = manual_of(lambda: spec_expand(" " + stmt + " ", [("i", str(i))], h.macros))
+            exp, manp = defn + wrap(call, k % 2), None if man is None else defn + wrap(man, k % 2)
+        else:
+            body = "{ " + stmt + " }"
+            call = f"Hardcode.repeat((i)=>{body}, start={i}, stop={i + 2});"
+            man, note = manual_of(lambda: "".join(inner(spec_expand(body, [("i", str(j))], h.macros)) for j in (i, i + 1)))
+            exp, manp = wrap(call, k % 3), None if man is None else wrap(man, k % 3)
+        cases.append(Case("calc", exp, manp, header=h.text, envs=h.envs, macros=h.macros, note=note, tag=f"calc-macro[{e}]"))
     # Hardcode.calc not followed by "(" / unbalanced
     for body in ['{ say "Hardcode.calc"; }', '{ say "Hardcode.calc 1"; }', '{ say "Hardcode.calc(1+(2)"; }',
                  '{ say "Hardcode.calc(1)Hardcode.calc(2)Hardcode.calc(Hardcode.calc(3)+1)"; }',
@@ -295,7 +386,8 @@ def gen_calc(rng, tier):
 
 NAME_SETS = [["i", "item"], ["i", "s"], ["a", "ab"], ["ab", "a"], ["x", "xx", "xxx"], ["n", "name", "na"], ["_", "v"],
              ["idx", "val", "i"], ["p", "q"], ["b", "a"], ["d", "d"], ["_", "_", "v"], ["k", "v", "k"]]
-LIST_STRINGS = ["a", "b b", "$i", "7", "12", "x$s", "", "@s", "$item", "Hardcode", "q-1", "$a", "$ab", "3"]
+LIST_STRINGS = ["a", "b b", "$i", "7", "12", "x$s", "", "@s", "$item", "Hardcode", "q-1", "$a", "$ab", "3",
+                "it's", "a  b", "x,y", "[z]", "{k:1}", "100%", "a=b", "-5", "Hardcode.calc(1+1)", "//c", "#h", "(p)", "$", "$$i"]
 
 
 def gen_lists(rng, tier):
@@ -354,8 +446,11 @@ def gen_lazy(rng, tier):
         chosen = [rng.choice(stm) for _ in range(rng.randint(1, 3))]
         content = " " + " ".join(chosen) + " "
         args = [rng.choice(LAZY_ARGS) for _ in names]
-        style = rng.randrange(6)
-        if style == 0 or len(names) == 1:
+        style = rng.randrange(7)
+        if style == 6:         # a parameter given both by position and by keyword: the keyword wins silently (only the model is compared)
+            call_args = ", ".join(args + [f"{names[0]}=9"])
+            binds = None
+        elif style == 0 or len(names) == 1:
             call_args = ", ".join(args)
             binds = list(zip(names, args))
         elif style == 1:       # all keywords, shuffled
@@ -413,13 +508,254 @@ def gen_nested(rng, tier):
     return cases
 
 
+def gen_sequences(rng, tier):
+    """Compilations done one after the other in ONE process: the expansion of each must be the manual expansion under ITS OWN
+    header (nothing about number macros may survive from an earlier compilation).  Returns groups (lists of cases)."""
+    D, E, V = (lambda k, v: ("define", k, v)), (lambda c, st, ms: ("enum", c, st, ms)), (lambda k: ("env", k))
+    grid = ('Hardcode.repeat((r)=>{ say "row $r: cells from Hardcode.calc($r*COLS) of Hardcode.calc(ROWS*COLS)"; '
+            'if ($x == Hardcode.calc(ROWS - $r)) { say "last"; say "row"; } }, start=0, stop=3);')
+    lazy_grid = '@lazy function cell(r, c) { say "cell Hardcode.calc($r*COLS+$c)"; $idx = Hardcode.calc(($r*COLS+$c) % ROWS); }\n'
+    color = 'Hardcode.repeat((i)=>{ say "c Hardcode.calc(Color.RED+$i) Hardcode.calc(Color.GREEN*10) Hardcode.calc(Color.BLUE - Color.RED)"; }, start=0, stop=2);'
+    dbg = 'Hardcode.repeat((i)=>{ say "d Hardcode.calc(DEBUG*100+$i)"; $lvl = Hardcode.calc(K+DEBUG); }, start=1, stop=3);'
+    scripts = [
+        # same source, the header's numbers change
+        [(grid, Hdr(D("ROWS", 3), D("COLS", 9))), (grid, Hdr(D("ROWS", 2), D("COLS", 4))), (grid, Hdr(D("COLS", 4), D("ROWS", 5))),
+         (grid, Hdr(D("ROWS", 3), D("COLS", 9)))],
+        [(lazy_grid + "function f() { cell(1, 2); cell(2, 0); }", Hdr(D("ROWS", 3), D("COLS", 9))),
+         (lazy_grid + "function f() { cell(1, 2); cell(2, 0); }", Hdr(D("ROWS", 7), D("COLS", 4))),
+         (lazy_grid + "function f() { cell(1, 2); }", Hdr(D("COLS", 1), D("ROWS", 1)))],
+        # the macro names change (a name defined before is no longer a number)
+        [('Hardcode.repeat((i)=>{ say "a Hardcode.calc(A+$i)"; }, start=0, stop=2);', Hdr(D("A", 1))),
+         ('Hardcode.repeat((i)=>{ say "b Hardcode.calc(B+$i)"; }, start=0, stop=2);', Hdr(D("B", 2))),
+         ('Hardcode.repeat((i)=>{ say "ab Hardcode.calc(A*B+$i)"; }, start=0, stop=2);', Hdr(D("A", 3), D("B", 4))),
+         ('Hardcode.repeat((i)=>{ say "a Hardcode.calc(A+$i)"; }, start=0, stop=2);', Hdr(D("B", 2))),      # A is gone: rejected
+         ('Hardcode.repeat((i)=>{ say "a Hardcode.calc(A+$i)"; }, start=0, stop=2);', None)],                  # no header at all
+        # longer / shorter names come and go (longest-first order must be recomputed)
+        [('Hardcode.repeat((i)=>{ say "n Hardcode.calc(N+NN*10+$i)"; }, start=0, stop=2);', Hdr(D("N", 1), D("NN", 2))),
+         ('Hardcode.repeat((i)=>{ say "n Hardcode.calc(N+NNN*10+$i)"; }, start=0, stop=2);', Hdr(D("NNN", 3), D("N", 4))),
+         ('Hardcode.repeat((i)=>{ say "n Hardcode.calc(N+NN*10+$i)"; }, start=0, stop=2);', Hdr(D("NN", 5), D("N", 6)))],
+        # enum start / member order change
+        [(color, Hdr(E("Color", None, ["RED", "GREEN", "BLUE"]))), (color, Hdr(E("Color", 5, ["RED", "GREEN", "BLUE"]))),
+         (color, Hdr(E("Color", 1, ["BLUE", "GREEN", "RED"]))), (color, Hdr(E("Color", None, ["RED", "GREEN", "BLUE"])))],
+        # --env changes the value of an #env macro
+        [(dbg, Hdr(V("DEBUG"), D("K", 3))), (dbg, Hdr(V("DEBUG"), D("K", 3), envs=["DEBUG"])), (dbg, Hdr(V("DEBUG"), D("K", 4))),
+         (dbg, Hdr(D("DEBUG", 7), D("K", 1)))],
+        # the first compilation has no number macro at all
+        [('Hardcode.repeat((i)=>{ say "p Hardcode.calc($i*3)"; }, start=0, stop=2);', None), (grid, Hdr(D("ROWS", 2), D("COLS", 2))),
+         (color, Hdr(E("Color", 2, ["RED", "GREEN", "BLUE"]))), (grid, Hdr(D("ROWS", 1), D("COLS", 8)))],
+    ]
+    # random scripts: every step its own header and an expression over that header's names (and sometimes the previous header's)
+    for _ in range(6 if tier == "quick" else 60):
+        steps, prev = [], None
+        for _ in range(rng.randint(2, 5)):
+            h = rng.choice(HDRS + [None])
+            leaves = (list(h.names) if h else []) + ["$i"] + ([rng.choice(prev.names)] if prev and rng.random() < .3 else [])
+            e = gen_expr(rng, leaves=leaves)
+            if rng.random() < .5:
+                src = 'Hardcode.repeat((i)=>{ say "q Hardcode.calc(%s)"; }, start=1, stop=3);' % e
+            else:
+                src = '@lazy function lq(i) { $q = Hardcode.calc(%s); }\nfunction f() { lq(1); lq(2); }' % e
+            steps.append((src, h))
+            prev = h or prev
+        scripts.append(steps)
+    groups = []
+    for gi, steps in enumerate(scripts):
+        group, before = [], []
+        for si, (src, h) in enumerate(steps):
+            macros = h.macros if h else []
+            prog = src if src.startswith("@lazy") else wrap(src, 0)
+            man, note = manual_of(lambda: expand_outermost(prog, macros))
+            c = Case("sequence", prog, man, header=h.text if h else None, envs=h.envs if h else None, macros=macros, note=note,
+                     tag=f"seq{gi}.{si}", before=list(before))
+            before.append(dict(src=prog, header=c.header, envs=c.envs))
+            group.append(c)
+        groups.append(group)
+    return groups
+
+
+def expand_outermost(prog: str, macros) -> str:
+    """manual expansion of the programs of gen_sequences: every top-level Hardcode.repeat((v)=>{..}, start=a, stop=b); and every call of
+    a @lazy function whose arguments are integers is written out"""
+    lazies = {}
+    for m in re.finditer(r"@lazy function (\w+)\(([^)]*)\) \{(.*)\}\n", prog):
+        lazies[m.group(1)] = ([x.strip() for x in m.group(2).split(",")], m.group(3))
+
+    def rep(m):
+        var, body, a, b = m.group(1), m.group(2), int(m.group(3)), int(m.group(4))
+        return "".join(inner(spec_expand(body, [(var, str(i))], macros)) for i in range(a, b))
+    out = re.sub(r"Hardcode\.repeat\(\((\w+)\)=>(\{.*\}), start=(-?\d+), stop=(-?\d+)\);", rep, prog)
+    for name, (params, content) in lazies.items():
+        def call(m, params=params, content=content):
+            args = [x.strip() for x in m.group(1).split(",")]
+            return spec_expand(content, list(zip(params, args)), macros)
+        head, tail = out.split("\n", 1) if out.startswith("@lazy") else ("", out)
+        tail = re.sub(r"\b%s\(([^()]*)\);" % re.escape(name), call, tail)
+        out = (head + "\n" if head else "") + tail
+    return out
+
+
+def gen_lazy_contexts(rng, tier):
+    """where a lazy call stands and what it is: no parameters, inside `execute ... run`, a class member, a lazy body calling another
+    lazy function with its own parameters passed on, repeated calls interleaved with control flow (private numbering)"""
+    out = []
+
+    def add(tag, defs, stmts, manual_stmts):
+        for where in (0, 1, 2):
+            out.append(Case("lazyctx", defs + wrap(stmts, where), None if manual_stmts is None else defs + wrap(manual_stmts, where),
+                            tag=f"lazyctx-{tag}-{where}"))
+    z = ' say "z"; if ($x == 1) { say "a"; say "b"; } '
+    add("zero-params", "@lazy function z() {" + z + "}\n", "z(); $y += 1; z();", z + " $y += 1; " + z)
+    one = ' tellraw @a {"text":$a,"bold":true}; '
+    d1 = "@lazy function one(a) {" + one + "}\n"
+    add("execute-run", d1, 'execute as @a run one(5); execute as @a at @s run one(a="q r");',
+        'execute as @a run' + spec_subst(one, [("a", "5")]) + 'execute as @a at @s run' + spec_subst(one, [("a", '"q r"')]))
+    body = ' say "$a|$b"; if ($x == $a) { say "P"; say "Q $b"; } '
+    dk = "class k { @lazy function lz(a, b) {" + body + "} }\n"
+    add("class-member", dk, 'k.lz(1, b=2); k.lz(b=@a[tag=t], a=-7);',
+        spec_subst(body, [("a", "1"), ("b", "2")]) + spec_subst(body, [("a", "-7"), ("b", "@a[tag=t]")]))
+    mid = ' say "$x-$y"; while ($w < $y) { $w += $x; } '
+    outer = ' mid($b, y=$a); say "o $a"; mid(y=$b, x=$a); '
+    dn = "@lazy function mid(x, y) {" + mid + "}\n@lazy function outer(a, b) {" + outer + "}\n"
+    add("lazy-in-lazy", dn, "outer(2, 3); outer(b=5, a=4);", spec_subst(outer, [("a", "2"), ("b", "3")]) + spec_subst(outer, [("a", "4"), ("b", "5")]))
+    rep = ' if ($c == $n) { say "r $n"; say "s"; } else { say "t $n"; } '
+    dr = "@lazy function rep(n) {" + rep + "}\n"
+    add("interleaved", dr, 'rep(1); if ($q == 2) { rep(2); say "mid"; } rep(3); while ($w < 2) { rep(4); $w++; }',
+        spec_subst(rep, [("n", "1")]) + ' if ($q == 2) {' + spec_subst(rep, [("n", "2")]) + ' say "mid"; }' + spec_subst(rep, [("n", "3")])
+        + ' while ($w < 2) {' + spec_subst(rep, [("n", "4")]) + ' $w++; }')
+    dc = '@lazy function area(w, h) { $a = Hardcode.calc($w*$h); say "area Hardcode.calc($w * $h) of $w x $h"; }\n'
+    add("calc-args", dc, "area(3, 4); area(h=-2, w=5); area(w = 7, h = -1);",
+        spec_expand(' $a = Hardcode.calc($w*$h); say "area Hardcode.calc($w * $h) of $w x $h"; ', [("w", "3"), ("h", "4")], [])
+        + spec_expand(' $a = Hardcode.calc($w*$h); say "area Hardcode.calc($w * $h) of $w x $h"; ', [("w", "5"), ("h", "-2")], [])
+        + spec_expand(' $a = Hardcode.calc($w*$h); say "area Hardcode.calc($w * $h) of $w x $h"; ', [("w", "7"), ("h", "-1")], []))
+    return out
+
+
+# argument kinds of a @lazy call: (class, source text)
+LAZY_ARG_KINDS = [
+    ("str", '"true"'), ("str", "'single'"), ("str", '"with space"'), ("str", '"it\'s"'), ("str", "'say \"hi\"'"), ("str", '"a\\\\b"'),
+    ("str", '"q\\"uote"'), ("str", "'mix \\' and \"'"), ("str", '""'), ("str", '"$v"'), ("str", '"5"'), ("str", '"@s"'),
+    ("str", '"  two  spaces "'), ("str", '"tab\\there"'), ("str", '"{\\"text\\":\\"x\\"}"'),
+    ("sel", "@a[tag=x,distance=..5]"), ("sel", "@s"), ("sel", "@e[type=zombie,limit=1,sort=nearest]"), ("sel", "@a[scores={k=1..}]"),
+    ("num", "5"), ("num", "-3"), ("num", "0"), ("num", "12"), ("num", "-17"), ("float", "1.5"),
+    ("kw", "foo"), ("kw", "minecraft:stone"), ("kw", "foo.bar"), ("kw", "true"),
+    ("json", '{"text":"hi","color":"red"}'), ("json", '[{"text":"a"},{"text":"b","bold":true}]'), ("json", "{a:1b,b:[1,2]}"),
+    ("json", "[1,2,3]"), ("json", "{}"), ("json", '{"a b":"c d"}'), ("json", "{ a : 1 , b : 'x y' }"),
+    ("score", "$v"), ("score", "obj:@s"), ("score", "$other.v"),
+    ("num", "Hardcode.calc(1+2)"), ("call", "say2(3)"), ("call", "inner.lazy(4, 5)"),
+    ("arrow0", '()=>{ say "in"; say "b"; }'), ("arrow1", '(i)=>{ say "x $i"; }'), ("arrow1", '(j)=>{ say "y $j"; $s += $j; }'),
+]
+# use sites of a parameter in the body: (template over %s = "$name", classes for which the site is meaningful)
+LAZY_SITES = [
+    ("tellraw @a %s;", {"str", "num", "kw", "json", "sel", "float"}),
+    ('say "pre %s post";', {"sel", "num", "kw", "score", "float", "call"}),
+    ("data modify storage a:b c set value %s;", {"str", "num", "json", "kw", "float"}),
+    ('tellraw @a {"text":%s,"bold":true};', {"str", "num", "kw", "float"}),
+    ("give @s stone{a:%s};", {"str", "num", "json", "float"}),
+    ('tellraw %s [{"text":"to"},%s];', {"sel"}),
+    ("$r = %s;", {"num", "score"}), ("$r += %s;", {"num", "score"}), ("$r *= %s;", {"num", "score"}), ("%s -= 2;", {"score"}),
+    ('if (%s > 3) { say "y"; say "z"; }', {"score"}), ('if ($x == %s) { say "y"; say "z"; } else { say "n"; }', {"num", "score"}),
+    ('if (entity %s) { say "e"; say "f"; }', {"sel"}), ('execute as %s at @s run say "hi";', {"sel"}),
+    ('say "c Hardcode.calc(%s*2+1)";', {"num"}), ("$k = Hardcode.calc(10 - %s);", {"num"}), ('while ($w < Hardcode.calc(%s+1)) { $w++; }', {"num"}),
+    ("scoreboard players set %s obj 1;", {"sel", "kw"}), ("%s;", {"call"}), ('say "n Hardcode.calc(1+2) %s";', {"num", "kw", "call"}),
+    ("Hardcode.repeat(%s, start=0, stop=2);", {"arrow1"}), ("Raycast.simple(onHit=%s, interval=0.5);", {"arrow0"}),
+    ('execute if data storage a:b {k:%s} run say "has";', {"str", "num", "json"}),
+]
+LAZY_HELPERS = ('@lazy function say2(n) { say "two $n"; }\n'
+                'class inner { @lazy function lazy(a, b) { say "i $a $b"; if ($x == $a) { say "I"; say "J"; } } }\n')
+
+
+def gen_lazy_cross(rng, tier):
+    """call form (positional / keyword / reordered keywords / mixed) x argument kind x use site of the parameter"""
+    cases = []
+    pairs = [(a, st) for a in LAZY_ARG_KINDS for st in LAZY_SITES if a[0] in st[1]]
+    off = [(a, st) for a in LAZY_ARG_KINDS for st in LAZY_SITES if a[0] not in st[1] and not a[0].startswith("arrow")
+           and "Hardcode.repeat(" not in st[0] and "Raycast" not in st[0]]
+    rng.shuffle(pairs)
+    rng.shuffle(off)
+    # meaningful (kind, site) pairs are combined in functions of 1-3 parameters; the others (mostly rejected both ways) go alone
+    names_pool = [["p"], ["a", "ab"], ["msg", "who"], ["x", "xx", "xxx"], ["n", "name", "na"], ["sel", "s"], ["_", "v"], ["val", "idx", "i"]]
+    forms = ["pos", "kw", "kwrev", "mixed"]
+    plan = []
+    while pairs:
+        names = list(rng.choice(names_pool))
+        chosen = [pairs.pop() for _ in range(min(len(names), len(pairs)))]
+        plan.append((names[:len(chosen)], chosen, forms if len(chosen) > 1 else forms[:2]))
+    for j, pr in enumerate(off[:len(off) // (8 if tier == "quick" else 1)]):
+        plan.append((["p"], [pr], [forms[j % 2]]))
+    k = 0
+    for names, chosen, which in plan:
+        stm, binds, no_manual = [], [], None
+        for nm, ((cls, arg), (site, ok)) in zip(names, chosen):
+            stm.append(site.replace("%s", "$" + nm))
+            binds.append((nm, arg))
+            in_string = any(site[:m.start()].count('"') % 2 == 1 for m in re.finditer("%s", site))
+            if cls == "str" and in_string:
+                no_manual = "a string literal substituted inside a string literal: there is no manual expansion"
+            elif in_string and re.search(r"[\[({].*\s.*[\])}]", arg):
+                # the argument's text is rebuilt from its tokens: blanks inside brackets are not kept (visible only inside a string)
+                no_manual = "blanks inside a bracket of the argument are observable only inside a string literal: outside the property"
+        content = " " + " ".join(stm) + " "
+        defn = LAZY_HELPERS + f"@lazy function lz({', '.join(names)}) {{{content}}}\n"
+        for form in which:
+            eq = rng.choice(["=", "=", " = ", "= "])
+            kws = [f"{n}{eq}{a}" for n, a in binds]
+            if form == "pos":
+                call_args = ", ".join(a for _, a in binds)
+            elif form == "kw":
+                call_args = ", ".join(kws)
+            elif form == "kwrev":
+                order = list(range(len(binds)))
+                rng.shuffle(order)
+                if len(order) > 1 and order == sorted(order):
+                    order.reverse()
+                call_args = ", ".join(kws[j] for j in order)
+            else:
+                cut = rng.randint(1, len(binds) - 1) if len(binds) > 1 else 0
+                rest = kws[cut:]
+                rest.reverse()
+                call_args = ", ".join([a for _, a in binds[:cut]] + rest)
+            call = f"lz({call_args});"
+            where = k % 2
+            k += 1
+            if no_manual:
+                man, note = None, no_manual
+            else:
+                man, note = manual_of(lambda: spec_expand(content, binds, []))
+            cases.append(Case("lazyx", defn + wrap(call, where), None if man is None else defn + wrap(man, where), note=note,
+                              tag=f"lazyx[{form}]" + "|".join(f"{c}:{a} @ {st}" for (c, a), (st, _) in chosen)))
+    return cases
+
+
 # ------------------------------------------------------------------ running, Coq terms
 
-def run_jobs(jobs: list[dict], chunk: int = 150) -> list[dict]:
-    chunks = [jobs[i:i + chunk] for i in range(0, len(jobs), chunk)]
+def run_groups(groups: list[list[dict]], chunk: int = 150) -> list[list[dict]]:
+    """every group of jobs is compiled in the given order in ONE process (a process takes several groups, never part of one)"""
+    chunks, cur = [], []
+    for g in groups:
+        if cur and len(cur) + len(g) > chunk:
+            chunks.append(cur)
+            cur = []
+        cur = cur + g
+    if cur:
+        chunks.append(cur)
     with ThreadPoolExecutor(max_workers=NCPU) as ex:
         res = list(ex.map(lambda c: run_py(RUNNER, c, timeout=900), chunks))
-    return [r for rs in res for r in rs]
+    flat = [r for rs in res for r in rs]
+    out, i = [], 0
+    for g in groups:
+        out.append(flat[i:i + len(g)])
+        i += len(g)
+    # what the same process compiled before each group
+    prior = []
+    k = 0
+    for ch in chunks:
+        pos = 0
+        while pos < len(ch):
+            g = groups[k]
+            prior.append(ch[:pos])
+            pos += len(g)
+            k += 1
+    return out, prior
 
 
 PYEXC = {"SyntaxError": "XSyntax", "ZeroDivisionError": "XZeroDiv", "TypeError": "XType", "KeyError": "XKey",
@@ -455,8 +791,27 @@ def coq_pairs(l) -> str:
     return coq_list(f"({coq_str(k)}, {coq_str(v)})" for k, v in l)
 
 
-def coq_case(rec: dict, mode: str) -> str | None:
-    """None if the record cannot be expressed (inputs not captured)."""
+def plain(text: str) -> bool:
+    return all(32 <= ord(ch) <= 126 or ch in "\n\t\r" for ch in text)
+
+
+def coq_tok(t) -> str:
+    if t[0] == "str":
+        return f"(AStr {'true' if t[2] else 'false'} {coq_str(t[1])})"
+    if t[0] == "paren":
+        return f"(AParen {coq_str(t[1])})"
+    if t[0] == "func":
+        return f"(AFunc {coq_str(t[1])} {coq_str(t[2])})"
+    return f"(AOther {coq_str(t[1])})"
+
+
+def coq_toks(a) -> str:
+    return coq_list(coq_tok(t) for t in a)
+
+
+def coq_case(rec: dict, mode: str, macros=None) -> str | None:
+    """None if the record cannot be expressed (inputs not captured).  macros: the header's number macros as the harness
+    knows them (None: those recorded from the compiler's Header at the call)."""
     if rec.get("input_error") or any(ord(ch) > 126 or (ord(ch) < 32 and ch not in "\n\t") for ch in rec["body"]):
         return None
     k = rec["kind"]
@@ -475,10 +830,14 @@ def coq_case(rec: dict, mode: str) -> str | None:
             return None
         inp = f"(HLists {coq_list(coq_str(p) for p in ps)} {coq_list(coq_list(coq_str(s) for s in l) for l in lists)})"
     else:
-        if ps is None or any(p is None for p in rec["pos"]):
+        if ps is None or "pos" not in rec or "kw" not in rec:
             return None
-        inp = f"(HLazy {coq_list(coq_str(p) for p in ps)} {coq_list(coq_str(p) for p in rec['pos'])} {coq_pairs(rec['kw'])})"
-    return (f"mkCase {mode} {inp} {coq_str(rec['body'])} {coq_pairs(rec['macros'])} "
+        toks = [t for a in rec["pos"] for t in a] + [t for _, a in rec["kw"] for t in a]
+        if any(not plain(x) for t in toks for x in t[1:] if isinstance(x, str)):
+            return None
+        inp = (f"(HLazy {coq_list(coq_str(p) for p in ps)} {coq_list(coq_toks(a) for a in rec['pos'])} "
+               f"{coq_list(f'({coq_str(k)}, {coq_toks(a)})' for k, a in rec['kw'])})")
+    return (f"mkCase {mode} {inp} {coq_str(rec['body'])} {coq_pairs(rec['macros'] if macros is None else macros)} "
             f"{coq_list(coq_str(t) for t in rec['texts'])} {coq_rerr(rec['err'])}")
 
 
@@ -529,19 +888,49 @@ def known_class(row):
     return None
 
 
-def evaluate(cases: list[Case]):
-    jobs, slots = [], []
-    for i, c in enumerate(cases):
-        jobs.append(dict(src=c.expanding, header=c.header))
-        slots.append((i, "e"))
-        if c.manual is not None:
-            jobs.append(dict(src=c.manual, header=c.header))
-            slots.append((i, "m"))
-    res = run_jobs(jobs)
-    rows = [dict(case=c, exp=None, man=None) for c in cases]
-    for (i, w), r in zip(slots, res):
-        rows[i]["exp" if w == "e" else "man"] = r
-    return rows
+def evaluate(groups: list[list[Case]], replaying: bool = False):
+    """groups of cases; the compilations of a group happen in one process in the order E1, M1, E2, M2, ..."""
+    jgroups, slots = [], []
+    for gi, g in enumerate(groups):
+        jobs = []
+        for ci, c in enumerate(g):
+            if replaying:
+                for b in c.before:
+                    jobs.append(dict(src=b["src"], header=b.get("header"), envs=b.get("envs")))
+                    slots.append((gi, ci, "b"))
+            jobs.append(dict(src=c.expanding, header=c.header, envs=c.envs))
+            slots.append((gi, ci, "e"))
+            if c.manual is not None:
+                jobs.append(dict(src=c.manual, header=c.header, envs=c.envs))
+                slots.append((gi, ci, "m"))
+        jgroups.append(jobs)
+    gres, prior = run_groups(jgroups)
+    res = [r for rs in gres for r in rs]
+    rows = [[dict(case=c, exp=None, man=None, prior=prior[gi]) for c in g] for gi, g in enumerate(groups)]
+    for (gi, ci, w), r in zip(slots, res):
+        if w != "b":
+            rows[gi][ci]["exp" if w == "e" else "man"] = r
+    return [r for g in rows for r in g]
+
+
+def localize(row):
+    """A failing case that is not a scripted sequence: does it fail when compiled alone?  If not, the failure needs what the same
+    process compiled before: find a short suffix of those compilations that reproduces it and store it in case.before."""
+    c = row["case"]
+    if c.before or not row.get("prior"):
+        return
+    alone = evaluate([[c]])[0]
+    if metamorphic_failure(c, alone["exp"], alone["man"]):
+        return
+    prior = [dict(src=j["src"], header=j.get("header"), envs=j.get("envs")) for j in row["prior"]]
+    k = 1
+    while True:
+        c.before = prior[-k:]
+        r = evaluate([[c]], replaying=True)[0]
+        if metamorphic_failure(c, r["exp"], r["man"]) or k >= len(prior):
+            c.note += f" | fails only after other compilations in the same process ({len(c.before)} stored in `before`)"
+            return
+        k *= 2
 
 
 def main(tier: str) -> int:
@@ -558,8 +947,10 @@ def main(tier: str) -> int:
     ]
     ck.proof(extra_targets=["Run/C19.vo"])
     rng = ck.rng
-    cases = gen_nested(rng, tier) + gen_calc(rng, tier) + gen_repeat(rng, tier) + gen_lists(rng, tier) + gen_lazy(rng, tier)
-    rows = evaluate(cases)
+    cases = (gen_nested(rng, tier) + gen_calc(rng, tier) + gen_repeat(rng, tier) + gen_lists(rng, tier) + gen_lazy(rng, tier)
+             + gen_lazy_cross(rng, tier) + gen_lazy_contexts(rng, tier))
+    seq_groups = gen_sequences(rng, tier)
+    rows = evaluate([[c] for c in cases] + seq_groups)
     mode = os.environ.get("C19_MODEL_MODE", "HRepaired")
 
     # ---- 1. the property on the real compiler
@@ -579,6 +970,7 @@ def main(tier: str) -> int:
         if key in reported:
             continue
         reported.add(key)
+        localize(row)
         ck.violation(dict(kind="expansion-differs-from-manual", case=c.to_json(), failure=f,
                           records=row["exp"].get("records", [])[:4]))
 
@@ -588,7 +980,7 @@ def main(tier: str) -> int:
     for ri, row in enumerate(rows):
         for rec in row["exp"].get("records", []):
             n_rec += 1
-            t = coq_case(rec, mode)
+            t = coq_case(rec, mode, row["case"].macros)
             if t is not None:
                 terms.append(t)
                 owners.append((ri, rec))
@@ -638,9 +1030,13 @@ def main(tier: str) -> int:
 def replay(path: str) -> int:
     o = json.load(open(path))
     c = o["case"]
-    case = Case(c["kind"], c["expanding"], c["manual"], c.get("header"), c.get("note", ""), c.get("tag", ""))
-    row = evaluate([case])[0]
+    case = Case(c["kind"], c["expanding"], c["manual"], c.get("header"), c.get("note", ""), c.get("tag", ""), envs=c.get("envs"),
+                macros=c.get("macros"), before=c.get("before"))
+    row = evaluate([[case]], replaying=True)[0]
     f = metamorphic_failure(case, row["exp"], row["man"])
+    for b in case.before:
+        print("compiled before, in the same process: header=%r envs=%r\n%s" % (b.get("header"), b.get("envs"), b["src"]))
+    print("header: %r envs: %r" % (case.header, case.envs))
     print("expanding program:\n" + case.expanding)
     print("manual expansion:\n" + str(case.manual))
     print("expected (manual):", json.dumps(summary(row["man"]), indent=1))
